@@ -515,6 +515,7 @@ def enumerate_schedules(steps, max_preempt=2, stride=1):
 
 _tl = threading.local()
 _SOLO_CACHE = {}
+_APPS_CACHE = {}
 _DEFAULT_READY = [False]
 
 
@@ -685,7 +686,8 @@ def make_apps(napps, use_default):
 
 
 def arr_codes():
-    return [f.__code__ for f in (_handler, _interp, _see, _gen_body, _view, _want, do_call)]
+    # the handler proper; the recording helpers (_see, _view, _want) and do_call are harness, not handler
+    return [f.__code__ for f in (_handler, _interp, _gen_body)]
 
 
 def repo_trace_dir():
@@ -729,8 +731,16 @@ def run_arrangement(case):
         solo_steps_.append(s.steps[0])
         if len(_SOLO_CACHE) < 4000:
             _SOLO_CACHE[ck] = (json.dumps(log), s.steps[0])
-    apps = make_apps(napps, use_default)
-    _warm(apps)
+    if case.get('reuse'):
+        # (batches of schedules over one scenario) the applications are built once
+        rk = (napps, use_default)
+        if rk not in _APPS_CACHE:
+            _APPS_CACHE[rk] = make_apps(napps, use_default)
+            _warm(_APPS_CACHE[rk])
+        apps = _APPS_CACHE[rk]
+    else:
+        apps = make_apps(napps, use_default)
+        _warm(apps)
     logs = [[] for _ in range(n)]
     switches = case.get('switches') or []
     if not case.get('abs'):
